@@ -120,9 +120,11 @@ func init() {
 			for cut := int64(1); cut < cutL; cut++ {
 				js = append(js, job(pkgServer, "HarnessC12", cutL, cut))
 			}
-			js = append(js, job(pkgServer, "HarnessC12Shape", 1, 1, 0), job(pkgServer, "HarnessC12Shape", 2, 2, 0), job(pkgServer, "HarnessC12Shape", 2, 1, 0), job(pkgServer, "HarnessC12Shape", 1, 2, 0))
+			js = append(js, job(pkgServer, "HarnessC12Shape", 1, 1, 1, 0), job(pkgServer, "HarnessC12Shape", 2, 2, 2, 0), job(pkgServer, "HarnessC12Shape", 2, 1, 1, 0), job(pkgServer, "HarnessC12Shape", 1, 2, 2, 0))
+			// lengths that only exist with 19 or 20 digits: values next to 2^63 and values that wrap around 2^64
+			js = append(js, job(pkgServer, "HarnessC12Shape", 1, 1, 19, 0), job(pkgServer, "HarnessC12Shape", 1, 1, 20, 0))
 			if tier == "thorough" {
-				js = append(js, job(pkgServer, "HarnessC12Shape", 3, 2, 0), job(pkgServer, "HarnessC12Shape", 1, 3, 0), job(pkgServer, "HarnessC12Shape", 2, 2, 9), job(pkgServer, "HarnessC12Shape", 1, 1, 13))
+				js = append(js, job(pkgServer, "HarnessC12Shape", 3, 2, 2, 0), job(pkgServer, "HarnessC12Shape", 1, 3, 3, 0), job(pkgServer, "HarnessC12Shape", 2, 2, 2, 9), job(pkgServer, "HarnessC12Shape", 1, 1, 1, 13), job(pkgServer, "HarnessC12Shape", 1, 19, 1, 0), job(pkgServer, "HarnessC12Shape", 19, 1, 1, 0))
 			}
 			return js
 		},
